@@ -23,8 +23,8 @@ THEOREMS = {
         "Dawgs.C05.Facts.parameter_map_copied",
         "Dawgs.C05.Facts.caller_query_only_copied",
         "Dawgs.C05.Facts.generic_shape",
-        "Dawgs.C05.Facts.kind_mapper_unlocked_methods_known",
-        "Dawgs.C05.Facts.c05_kindmapper_full_refuted",
+        "Dawgs.C05.Facts.kind_mapper_locked_or_known",
+        "Dawgs.C05.Facts.kind_mapper_single_writer",
     ],
     # the first-match loop of PruneDefinitions over the alias map is justified by C06's invariant
     "Dawgs.Props.C06": ["Dawgs.C06.Props.prune_alias_choice_unique"],
@@ -43,7 +43,6 @@ HAND_PANIC_SITES = [
 
 def do_regen(ctx):
     regen.c05_facts()
-    regen.c06_sites()
 
 
 def _field(line, name):
